@@ -12,6 +12,7 @@ pub struct Report {
     pub dist: BTreeMap<String, u64>,
     pub exhaustive: bool,
     pub notes: Vec<String>,
+    pub class_counts: BTreeMap<String, u64>,
 }
 impl Report {
     pub fn count(&mut self, key: &str) { *self.dist.entry(key.to_string()).or_insert(0) += 1; }
@@ -19,14 +20,22 @@ impl Report {
     pub fn nontrivial_case(&mut self, repr: &str) { self.nontrivial.insert(fnv(repr.as_bytes())); }
     pub fn sample(&mut self, v: Value) { if self.samples.len() < 6 { self.samples.push(v); } }
     pub fn disagree(&mut self, v: Value) { if self.disagreements.len() < 50 { self.disagreements.push(v); } else { self.count("disagreements_dropped"); } }
-    pub fn fail(&mut self, v: Value) { if self.failures.len() < 50 { self.failures.push(v); } else { self.count("failures_dropped"); } }
+    pub fn fail(&mut self, v: Value) { self.push_fail(v, true) }
+    fn push_fail(&mut self, v: Value, count: bool) {
+        // keep at most 3 examples per failure class, 400 in total; count the rest
+        let cls = v.get("class").and_then(|c| c.as_str()).unwrap_or("").to_string();
+        let same = self.failures.iter().filter(|f| f.get("class").and_then(|c| c.as_str()).unwrap_or("") == cls).count();
+        if count { *self.class_counts.entry(cls).or_insert(0) += 1; }
+        if same < 3 && self.failures.len() < 400 { self.failures.push(v); } else if count { self.count("failures_dropped"); }
+    }
     pub fn merge(&mut self, o: Report) {
         self.evaluations += o.evaluations;
         self.nontrivial.extend(o.nontrivial);
         for d in o.disagreements { self.disagree(d); }
-        for d in o.failures { self.fail(d); }
+        for d in o.failures { self.push_fail(d, false); }
         for s in o.samples { self.sample(s); }
         for (k, v) in o.dist { *self.dist.entry(k).or_insert(0) += v; }
+        for (k, v) in o.class_counts { *self.class_counts.entry(k).or_insert(0) += v; }
         self.notes.extend(o.notes);
     }
     pub fn to_json(&self) -> Value {
@@ -39,6 +48,7 @@ impl Report {
             "distribution": self.dist,
             "exhaustive": self.exhaustive,
             "notes": self.notes,
+            "failure_class_counts": self.class_counts,
         })
     }
 }
@@ -63,6 +73,15 @@ pub fn parallel<F: Fn(usize, usize) -> Report + Sync>(n: usize, f: F) -> Report 
     total
 }
 
+thread_local! { pub static LAST_PANIC: std::cell::RefCell<String> = std::cell::RefCell::new(String::new()); }
+/// install a quiet panic hook that remembers message + location per thread
+pub fn install_panic_hook() {
+    std::panic::set_hook(Box::new(|info| {
+        let loc = info.location().map(|l| format!("{}:{}", l.file(), l.line())).unwrap_or_default();
+        let msg = if let Some(s) = info.payload().downcast_ref::<&str>() { s.to_string() } else if let Some(s) = info.payload().downcast_ref::<String>() { s.clone() } else { "panic".into() };
+        LAST_PANIC.with(|p| *p.borrow_mut() = format!("{} at {}", msg, loc));
+    }));
+}
 /// Run a closure catching panics; returns Err(message) on panic.
 pub fn catch<T, F: FnOnce() -> T + std::panic::UnwindSafe>(f: F) -> Result<T, String> {
     match std::panic::catch_unwind(f) {
@@ -70,7 +89,8 @@ pub fn catch<T, F: FnOnce() -> T + std::panic::UnwindSafe>(f: F) -> Result<T, St
         Err(e) => {
             let msg = if let Some(s) = e.downcast_ref::<&str>() { s.to_string() }
                       else if let Some(s) = e.downcast_ref::<String>() { s.clone() } else { "panic".to_string() };
-            Err(msg)
+            let with_loc = LAST_PANIC.with(|p| p.borrow().clone());
+            Err(if with_loc.is_empty() { msg } else { with_loc })
         }
     }
 }
